@@ -16,6 +16,7 @@ def run_contract(reg, c, nat, inputs, fn=None):
     """-> dict(status: 'ok'|'skip'|'fail', why, observed)"""
     fn = fn or resolve(c.source)
     env = dict(inputs)
+    env["__param_result_or_result"] = inputs.get("result")
     try:
         pre = nat.prepare(c.requires)
         for text, ok in nat.check(pre, env):
@@ -47,6 +48,8 @@ def run_contract(reg, c, nat, inputs, fn=None):
         when = (c.raises[decl] or {}).get("when")
         return {"status": "ok", "observed": {"exception": cls}}
     env["result"] = result
+    if "result" not in c.params:
+        env["__param_result_or_result"] = result
     n_ne = 0
     try:
         for text, ok in nat.check(ens, env, oldvals):
